@@ -53,6 +53,9 @@ static void report_block(GPArena* a, B* b, size_t align, int is_arena)
     if (!th_inside(b->p, b->n)) fputs(" OUTSIDE-OBTAINED-MEMORY", stdout);
 }
 
+static size_t deferred_runs;
+static void noop_deferred(void* arg) { (void)arg; deferred_runs++; }
+
 static void* run_case(void* unused)
 {
     (void)unused;
@@ -104,6 +107,10 @@ static void* run_case(void* unused)
             fill(b);
             check_all(align, NULL);
             puts("");
+        } else if (!strcmp(t[1], "defer") && n >= 2 && a && !strcmp(kind, "scope")) {
+            /* the scope's defer stack lives in the scope's own arena, next to the caller's blocks */
+            gp_scope_defer((GPAllocator*)a, noop_deferred, NULL);
+            fputs("ok", stdout); th_print_traffic(); check_all(align, NULL); puts("");
         } else if (!strcmp(t[1], "rewind") && n == 3 && a) {
             size_t id = strtoull(t[2], NULL, 10);
             gp_arena_rewind(a, blk[id].p);
